@@ -472,10 +472,14 @@ class The(ResultQuantifier[T]):
     """
 
     def evaluate(self) -> TypingUnion[Iterable[T], T, UnificationDict]:
-        result = self._evaluate_()
-        result = self._process_result_(result)
-        self._reset_cache_()
-        return result
+        try:
+            # Like An.evaluate: predicates are executed and instances are constructed concretely during evaluation.
+            with symbolic_mode(mode=None):
+                result = self._evaluate_()
+            return self._process_result_(result)
+        finally:
+            # Also when no or multiple solutions are found: leave no evaluation state behind.
+            self._reset_cache_()
 
     def _evaluate__(self, sources: Optional[Dict[int, HashedValue]] = None, yield_when_false: bool = False) -> Iterable[Dict[int, HashedValue]]:
         v = self._evaluate_(sources, yield_when_false=yield_when_false)
@@ -503,7 +507,7 @@ class The(ResultQuantifier[T]):
                 result = sources
             else:
                 raise NoSolutionFound(self._child_)
-        else:
+        elif self._var_:
             result[self._id_] = result[self._var_._id_]
         return result
 
@@ -517,11 +521,26 @@ class An(ResultQuantifier[T]):
         self._node_.wrap_subtree = True
 
     def evaluate(self) -> Iterable[TypingUnion[T, Dict[TypingUnion[T, SymbolicExpression[T]], T]]]:
+        results = self._evaluate__()
+        try:
+            for result in iter(lambda: self._next_result_(results), None):
+                yield self._process_result_(result)
+        finally:
+            # Also when the iteration is abandoned or user code raises: leave no evaluation state behind.
+            results.close()
+            self._reset_cache_()
+
+    def _next_result_(self, results: Iterable[Dict[int, HashedValue]]) -> Optional[Dict[int, HashedValue]]:
+        """
+        Compute the next solution with symbolic mode switched off. The mode of the caller is restored before returning,
+        such that it is untouched whenever the result iterator is suspended, abandoned or finished.
+
+        :param results: The generator of solutions.
+        :return: The next solution, or None if there are no more solutions.
+        """
         with symbolic_mode(mode=None):
-            results = self._evaluate__()
             assert not in_symbolic_mode()
-            yield from map(self._process_result_, results)
-        self._reset_cache_()
+            return next(results, None)
 
     def _evaluate__(self, sources: Optional[Dict[int, HashedValue]] = None, yield_when_false: bool = False) -> Iterable[T]:
         sources = sources or {}
